@@ -106,6 +106,7 @@ func main() {
 		par        = flag.Int("par", 8, "parallel solver processes")
 		keep       = flag.String("keep", "", "directory to keep SMT files")
 		windows    = flag.String("windows", "", "JSON file with window specs (known findings)")
+		order      = flag.String("order", "", "comma-separated substrings of goroutine names that run first in every round")
 		spawn      = flag.String("spawn", "", "per-go-statement thread slots: substr=n,substr=n (default 1)")
 		nopor      = flag.Bool("nopor", false, "disable partial-order reduction and frozen-cell folding (cross-check)")
 		noloops    = flag.Bool("noloopcheck", false, "skip unwinding-assertion queries")
@@ -147,6 +148,9 @@ func main() {
 				w.spawnOverride[kv[:i]] = n
 			}
 		}
+		if *order != "" {
+			w.orderFirst = strings.Split(*order, ",")
+		}
 		if *windows != "" {
 			w.loadWindows(*windows)
 		}
@@ -175,6 +179,7 @@ func main() {
 			w2.R, w2.U, w2.K, w2.poolBag, w2.raceMode = *R, *U, *K, *pool, *race
 			w2.unwindOverride = w.unwindOverride
 			w2.spawnOverride = w.spawnOverride
+			w2.orderFirst = w.orderFirst
 			w2.windows = w.windows
 			for _, ws := range w2.windows {
 				ws.reset()
@@ -263,7 +268,7 @@ func load(repo, pkgDir, overlayDir, entry string) *W {
 	}
 	w := &W{prog: loadedProg, fset: loadedProg.Fset, objKey: map[string]*Object{}, funcs: map[string]bool{}, intrUsed: map[string]bool{},
 		crashed: False, viol: map[string]*Term{}, violPos: map[string]string{}, assumes: True, reach: map[string]*Term{},
-		loopsTruncated: map[string]*Term{}, loopIters: map[string]int{}, fninfo: map[*ssa.Function]*fnInfo{}, nondetPos: map[string]string{},
+		loopsTruncated: map[string]*Term{}, loopIters: map[string]int{}, fninfo: map[*ssa.Function]*fnInfo{}, nondetPos: map[string]string{}, nondetNames: map[int]string{},
 		clock: BV(64, 1), unwindOverride: map[string]int{}, racy: map[string]bool{}, winHit: map[string]*Term{}, stats: map[string]int{},
 		slots: map[int][]*Thread{}, siteIDs: map[ssa.Instruction]int{}, spawnOverride: map[string]int{}, spawnTrunc: map[string]*Term{}, recoverFns: map[*ssa.Function]bool{}}
 	return w
@@ -293,6 +298,6 @@ func (w *W) fill(res *Result) {
 	res.Intrinsics = sortedKeys(w.intrUsed)
 	res.Nondets = map[string]string{}
 	for _, v := range w.nondets {
-		res.Nondets[v.name] = w.nondetPos[v.name]
+		res.Nondets[w.ndName(v)] = w.nondetPos[w.ndName(v)]
 	}
 }
